@@ -53,6 +53,29 @@ def t_derive_bit(ev, outcome, exc, path):
     return True
 
 
+def t_roles_of_the_base_objects(ev, outcome, exc, path, I):
+    """C06: the FIRST object named is the keying object - its value is the key material - and
+    derivation data that is not given inline is the value of a Secret Data object named AFTER it,
+    never the keying object's own value."""
+    calls = [e for e in ev if e[0] == 'crypto' and e[1] == 'derive_key']
+    if not calls:
+        return True
+    loaded = [e[3] for e in ev if e[0] == 'db.load']
+    kw = calls[0][3]
+    if not loaded or kw.get('key_material') is not loaded[0].fields.get('value'):
+        return "the key material handed to derive_key() is not the value of the first object named"
+    pay = I.ghost_globals.get('__payload__')
+    dp = I.resolve_opt(pay.fields.get('_derivation_parameters')) if pay is not None else None
+    inline = I.resolve_opt(dp.fields.get('_derivation_data')) if dp is not None else None
+    data = kw.get('derivation_data')
+    if inline is None and data is not None and not isinstance(data, (bytes, str)):
+        if data is loaded[0].fields.get('value'):
+            return "the keying object's own value is used as derivation data"
+        if not any(data is mo.fields.get('value') for mo in loaded[1:]):
+            return "the derivation data is neither given inline nor the value of a later base object"
+    return True
+
+
 def t_requested_length(ev, outcome, exc, path, I):
     """C06: the derived object stores exactly Cryptographic Length / 8 bytes, and those bytes are
     (a prefix of) what derive_key() returned for that very length."""
@@ -93,6 +116,7 @@ c.scope('trace.owner', 'C03')
 c.trace("base-objects-hold-the-derive-key-bit", t_derive_bit)
 c.scope('trace.base-objects', 'C04')
 c.trace("derived-material-has-the-requested-length", t_requested_length)
+c.trace("derived-material-from-the-right-base-objects", t_roles_of_the_base_objects)
 c.scope('trace.derived-material', 'C06')
 c.trace("no-effect-before-raise", t_no_effect_before_raise)
 c.trace("single-transaction", t_single_transaction)
